@@ -23,6 +23,7 @@ func All() map[string]orch.Property {
 		&C10{},
 		&C11{},
 		&C12{},
+		&C13{},
 		&C15{},
 		&C16{},
 		&C17{},
